@@ -311,12 +311,18 @@ def run(tier, v):
             ("GrpcWireMC", "GrpcWire_neg_inplace.cfg", kw), ("GrpcWireMC", "GrpcWire_neg_abortonbad.cfg", kw),
             ("GrpcWireMC", "GrpcWire_neg_dropmd.cfg", kw)]
     t0 = time.time()
+    if thorough:   # files of 3 entries (2 instances) next to 3 instances (files of 2)
+        jobs.append(("GrpcWireMC", "GrpcWire_exh_file3.cfg", dict(kw, workers=8, heap="8g")))
     res = tlc_parallel(jobs)
     vlib.log("design TLC + negative controls: %.1fs (%d states)" % (time.time() - t0, res[0].distinct))
     vlib.tlc_must_pass(res[0], jobs[0][1])
-    for j, r in zip(jobs[1:], res[1:]):
+    for j, r in zip(jobs[1:4], res[1:4]):
         vlib.tlc_must_fail(r, j[1])
     states, trans = res[0].distinct, res[0].generated
+    for j, r in zip(jobs[4:], res[4:]):
+        vlib.tlc_must_pass(r, j[1])
+        states += r.distinct
+        trans += r.generated
     # 2. M2: the case space
     doc = gen_cases(thorough)
     b = vlib.harness_build()
@@ -345,10 +351,11 @@ def run(tier, v):
         "abstract_entries": len(ents), "bad_entries": sum(1 for e in ents if e["bad"] != "none"),
         "runs": len(doc["runs"]), "runs_rejected": rejected,
         "calls_received": recvs, "trace_lines": len(rows), "trace_spec_states": tstates,
-        "negative_controls": ["inplace", "abortonbad", "dropmd"], "corrupted_traces_rejected": corrupted, "design_config": jobs[0][1],
+        "negative_controls": ["inplace", "abortonbad", "dropmd"], "corrupted_traces_rejected": corrupted, "design_configs": [jobs[0][1]] + [j[1] for j in jobs[4:]],
     }
     return "model_checking", cov, [
-        "exhaustive TLC bounds: files of <= 2 entries over 4 grpc/json and 3 scenario classes, <= %d instances" % (3 if thorough else 2),
+        "exhaustive TLC bounds: files of <= 2 entries over 4 grpc/json and 3 scenario classes, <= %d instances%s" % (
+            3 if thorough else 2, "; files of <= 3 entries with <= 2 instances" if thorough else ""),
         "values are compared as (constant prefix, token) pairs split at '~' by the recording target; non-default values only "
         "(proto3 cannot distinguish a default from an absent field)",
         "a scenario stops at its first failed step (what the gun does; the statement only asks that OTHER entries are undisturbed)",
